@@ -85,6 +85,11 @@ def payload_forms(rnd):
         ("closure-call", "", "(|| 1)()", "", None),
         ("static-item", "", "GLOBAL_VALUE", "", None),
     ]
+    for k in range(6):
+        t = rg.random_type(rnd, rnd.randint(1, 3), named=("Foo", "Bar", "Kind"), allow_result=False, allow_ref=False)
+        r = rg.rust(t)
+        forms.append(("typed-param-random", "", rnd.choice(["p", "&p", "p.clone()"]), "p: %s" % r, t))
+        forms.append(("typed-let-random", "    let v: %s = todo!();\n" % r, rnd.choice(["v", "&v", "v.clone()"]), "", t))
     return forms
 
 
@@ -219,6 +224,7 @@ def run_case(a):
             if l["listen_calls"] != 1:
                 viol.append(("C12 listener-listen-count", "listener %s has %d listen calls" % (l["name"], l["listen_calls"])))
             want = rg.M(exp) if exp is not None else ("unknown",)
+            known_c05 = False
             for where, ty in (("handler-payload", l["payload"]), ("listen-type-argument", l["listen_targs"][0] if l["listen_targs"] else None)):
                 if ty is None:
                     viol.append(("C12 payload-annotation-missing %s" % where, "listener %s for %r has no %s" % (l["name"], ev, where)))
@@ -228,6 +234,13 @@ def run_case(a):
                 except sh.ShapeError as e2:
                     viol.append(("C12 payload-unreadable", str(e2)))
                     continue
+                if s != want and exp is not None:
+                    # the emitted text equals the recorded C05 defect (nullable array element without parentheses)?
+                    from . import defects
+                    model = defects.ts_model_shape(defects.add_types_prefix_model(defects.ts_text_model(exp)))
+                    if model is not None and s == model:
+                        known_c05 = True
+                        break
                 if s != want:
                     ident = payload_ident.get(fm)
                     if exp is None and ident and s == ("ref", ident):
